@@ -312,6 +312,7 @@ def needs_flags_valuation(ctx):
         ("// while (i < 4) { shift = this; }\nRzILOpEffect *e = EMPTY();", (False, False)),
         ("HEX_GET_INSN_RMODE(hi)", (True, False)), ("U32(pkt->pkt_addr)", (False, True)), ("a = (hi);\nb = f(pkt, hi);", (True, True)),
         ("RzILOpEffect *e = EMPTY();", (False, False)),
+        ("HEX_STORE_SLOT_CANCELLED(pkt, hi->slot)", (True, True)), ("x = hi->slot;", (True, False)), ("f(&hi, *pkt);", (True, True)),
     ]
     for code, exp in probes:
         outs = Interp(idx).explore(lambda i, code=code: i.construct("RZILInstruction", ["X", [code], [["M"]], [""]], {}))
